@@ -28,9 +28,13 @@ pub fn run_profile(prof: engine::Profile) {
         e.end(true, false);
     } else {
         e.quiesce();
+        if !report::has_violation() {
+            e.drop_all_bufs();
+            e.check_pool_conservation();
+        }
         let clean = !report::has_violation();
-        let ring_first = tape::chance(site::DROP, 1, 4);
-        e.end(ring_first, clean && !ring_first);
+        let shuffle = tape::chance(site::DROP, 1, 3);
+        e.end(shuffle, clean);
     }
     if !report::has_violation() {
         engine::check_leaks();
@@ -39,4 +43,139 @@ pub fn run_profile(prof: engine::Profile) {
 
 pub fn life() {
     run_profile(BASE);
+}
+
+/// `cq`: small completion queues, many concurrent operations of the same
+/// type, noise, overflow, batches split across `Ring::poll` calls.
+pub fn cq() {
+    use crate::ops::Kind::*;
+    run_profile(engine::Profile {
+        name: "cq",
+        kinds: &[ReadVec, ReadVec, WriteVec, SendZc, SendVectoredZc, SyncAll, Recv, MultishotAccept, MultishotRead, MultishotRecv, Accept, ReadPool, Metadata],
+        sq_sizes: &[8, 4, 16, 2],
+        cq_mults: &[1, 2],
+        max_steps: 50,
+        max_tasks: 12,
+        w_create: 8,
+        w_poll: 8,
+        w_drop: 2,
+        w_ringpoll: 3,
+        w_kcomplete: 10,
+        w_dropfd: 0,
+        w_closefd: 0,
+        w_relbuf: 2,
+        p_ring_drop_early: 3,
+        tweak: |c| {
+            c.noise = true;
+            c.p_intr = c.p_intr.min(15);
+        },
+        ..BASE
+    });
+}
+
+/// `blocked`: more tasks than submission slots, operations that never
+/// complete before the quiescence phase; only `Ring::poll` makes room.
+pub fn blocked() {
+    use crate::ops::Kind::*;
+    run_profile(engine::Profile {
+        name: "blocked",
+        kinds: &[ReadVec, WriteVec, SyncAll, Recv, Send, Accept, Open, Socket, Truncate, Metadata, MultishotAccept, SendZc],
+        sq_sizes: &[1, 2],
+        cq_mults: &[1, 2, 4],
+        max_steps: 30,
+        max_tasks: 6,
+        w_create: 8,
+        w_poll: 10,
+        w_drop: 1,
+        w_ringpoll: 4,
+        w_kcomplete: 1,
+        w_dropfd: 1,
+        w_closefd: 0,
+        w_relbuf: 0,
+        p_ring_drop_early: 0,
+        pools: false,
+        ..BASE
+    });
+}
+
+/// `fd`: histories of descriptor-creating operations, drops and closes.
+pub fn fd() {
+    use crate::ops::Kind::*;
+    run_profile(engine::Profile {
+        name: "fd",
+        kinds: &[Open, OpenDirect, OpenExtract, Socket, SocketDirect, Pipe, PipeDirect, Accept, MultishotAccept, ToDirect, ToFile, SyncAll, WriteVec, ReadVec],
+        sq_sizes: &[4, 2, 1, 8],
+        cq_mults: &[2, 4, 1],
+        max_steps: 40,
+        max_tasks: 8,
+        w_create: 8,
+        w_poll: 10,
+        w_drop: 2,
+        w_ringpoll: 5,
+        w_kcomplete: 6,
+        w_dropfd: 4,
+        w_closefd: 3,
+        w_relbuf: 0,
+        w_stdio: 1,
+        p_ring_drop_early: 0,
+        pools: false,
+        tweak: |c| {
+            c.p_intr = 0;
+        },
+        ..BASE
+    });
+}
+
+/// `restart`: completions are interrupted (EINTR/ECANCELED) most of the time.
+pub fn restart() {
+    run_profile(engine::Profile {
+        name: "restart",
+        max_steps: 40,
+        w_kcomplete: 8,
+        w_drop: 1,
+        p_ring_drop_early: 2,
+        tweak: |c| {
+            c.p_intr = 45;
+            c.p_errno = c.p_errno.min(10);
+        },
+        ..BASE
+    });
+}
+
+/// `pool`: provided-buffer pool histories with edits of the buffers.
+pub fn pool() {
+    use crate::ops::Kind::*;
+    run_profile(engine::Profile {
+        name: "pool",
+        kinds: &[ReadPool, ReadPool, RecvFromPool, MultishotRead, MultishotRecv, ReadVec, WriteVec],
+        sq_sizes: &[8, 4, 2],
+        cq_mults: &[2, 4],
+        max_steps: 50,
+        max_tasks: 6,
+        w_create: 7,
+        w_poll: 9,
+        w_drop: 2,
+        w_ringpoll: 5,
+        w_kcomplete: 8,
+        w_dropfd: 0,
+        w_closefd: 0,
+        w_relbuf: 5,
+        w_edit: 8,
+        w_bufio: 2,
+        p_ring_drop_early: 3,
+        direct: false,
+        force_pool: true,
+        ..BASE
+    });
+}
+
+/// `teardown`: object graphs dropped in any order, the ring at any position.
+pub fn teardown() {
+    run_profile(engine::Profile {
+        name: "teardown",
+        max_steps: 30,
+        w_kcomplete: 3,
+        p_ring_drop_early: 60,
+        ..BASE
+    });
 }
